@@ -734,7 +734,7 @@ def call_histories(ctx, binp, events, ops, module, what, chunk=None, extra_env=N
         picked = [rej[k][0] for k in kinds][:4]
         if len(kinds) == 1:                       # no error kinds reported: a spread of the rejected inputs instead
             lst = rej[kinds[0]]
-            picked = [lst[0], lst[len(lst) // 3], lst[2 * len(lst) // 3], lst[-1]]
+            picked = [lst[(k * (len(lst) - 1)) // 5] for k in range(6)]
             picked = [x for i, x in enumerate(picked) if all(digest(x["in"]) != digest(y["in"]) for y in picked[:i])]
         for r_ in picked:
             for h in fgen:
